@@ -2631,8 +2631,10 @@ func (t *Terminal) printInfoImpl() {
 }
 
 func (t *Terminal) resizeIfNeeded() bool {
-	// Check if input border is used and input has changed
-	if t.inputBorderShape.Visible() && t.inputWindow == nil && !t.inputless || t.inputWindow != nil && t.inputless {
+	// Check if the input has its own window (input border, or a separate
+	// header window next to it) and input has changed
+	wantsInputWindow := t.inputBorderShape.Visible() || t.hasHeaderWindow() || t.hasHeaderLinesWindow()
+	if wantsInputWindow && t.inputWindow == nil && !t.inputless || t.inputWindow != nil && t.inputless {
 		t.printAll()
 		return true
 	}
